@@ -28,7 +28,7 @@ func (e *Engine) newCtx(fi *FuncInfo, ct *Contract) *FnCtx {
 	c := &FnCtx{E: e, Fn: fi, C: ct, declSet: map[string]bool{}, heapSort: map[string]string{}, heapType: map[string]types.Type{},
 		typeTags: map[string]int{}, Opaque: map[string]bool{}, Inlined: map[string]bool{}, UsedContracts: map[string]bool{},
 		Trusted: map[string]bool{}, safeN: map[string]int{}, paramVals: map[string]Val{}, globalsBusy: map[types.Object]bool{},
-		callN: map[string]int{}, recFns: map[string]bool{}}
+		callN: map[string]int{}, recFns: map[string]bool{}, recInfos: map[string]*recInfo{}}
 	c.frames = []*inlineFrame{{fn: fi, pkg: fi.Pkg, tsubst: map[*types.TypeParam]types.Type{}}}
 	return c
 }
@@ -44,6 +44,9 @@ type CaseFix struct {
 
 func (e *Engine) VerifyFunc(key string, targs []string) (rep *FuncReport) {
 	ct := e.Contracts[key]
+	if ct != nil && ct.IsLemma {
+		return e.VerifyLemma(key)
+	}
 	if ct == nil || ct.Cases == nil {
 		return e.VerifyFuncCase(key, targs, nil)
 	}
@@ -164,6 +167,11 @@ func (e *Engine) VerifyFuncCase(key string, targs []string, cf *CaseFix) (rep *F
 		g := c.eval(&Env{st: st, spec: true, spkg: spkg}, ax.Expr)
 		c.facts = append(c.facts, g.T)
 	}
+	if ct != nil {
+		for _, ln := range ct.Uses {
+			c.facts = append(c.facts, c.lemmaFact(ln))
+		}
+	}
 	preEnv := &Env{st: st, spec: true, old: st, spkg: fi.Pkg.Types,
 		lookup: func(n string) (Val, bool) { v, ok := c.paramVals[n]; return v, ok }}
 	if ct != nil {
@@ -252,6 +260,11 @@ func (e *Engine) VerifyFuncCase(key string, targs []string, cf *CaseFix) (rep *F
 				v, ok := c.paramVals[n]
 				return v, ok
 			}}
+		for _, h := range ct.ExitHints {
+			g := c.eval(postEnv, h.Expr)
+			c.oblige(exit, "hint", "exit:"+h.Label, g.T, h.Src, h.Try, fi.Decl)
+			c.assume(exit, g.T)
+		}
 		var cases []string
 		if ct.Cases != nil && false {
 			entryEnv := &Env{st: c.entry, spec: true, old: c.entry, spkg: fi.Pkg.Types, lookup: func(n string) (Val, bool) { v, ok := c.paramVals[n]; return v, ok }}
